@@ -95,7 +95,7 @@ pub fn conv_case<T: Sc>(rng: &mut Rng, idx: usize) -> (FitCase<T>, Vec<T>, DMatr
     };
     let base = StateCase {
         recipe,
-        built: rng.chance(0.5),
+        built: { let b = rng.chance(0.5); b && idx % 5 != 3 },
         flavour,
         y,
         w,
@@ -164,6 +164,20 @@ pub fn emit_conv_case<T: Sc>(out: &mut Out, idx: usize, rng: &mut Rng) {
             out.end();
             return;
         }
+    };
+    // one fit in five (cycled): the problem that is fitted is a CLONE of the built one, the original is
+    // kept (fitting one problem with several solver settings is done that way); hand-written models
+    // only - the builder-made model is not `Clone` (round 11)
+    let prob = if idx % 5 == 3 {
+        match prob.try_clone() {
+            Some(cl) => {
+                out.line("note fitted-a-clone");
+                cl
+            }
+            None => prob,
+        }
+    } else {
+        prob
     };
     // weighted sum of squares at the generating parameters and coefficients
     let phi_t = c.recipe.phi::<T>(&truth);
